@@ -113,7 +113,11 @@ LAYER_MATERIALS = {
 
 
 def gen_planet(d: Draw, lifetime=False):
-    nl = d.weighted([(1, 3), (2, 4), (3, 4), (4, 2), (5, 1)])
+    nl = d.weighted([(1, 6), (2, 8), (3, 8), (4, 4), (5, 2), (0, 3)])
+    many = nl == 0
+    if many:
+        # finely layered interior models: the solver documents no upper limit on the number of layers
+        nl = d.pick([6, 8, 10, 11, 12, 13, 16, 24, 40])
     layers = []
     for i in range(nl):
         t = d.weighted([('solid', 3), ('liquid', 2)])
@@ -121,6 +125,8 @@ def gen_planet(d: Draw, lifetime=False):
             t = 'solid'                       # a liquid surface layer stays in the mix, but rarer
         mat = dict(d.pick(LAYER_MATERIALS[t]))
         n = d.weighted([(d.between(5, 12), 18), (d.between(13, 60), 9), (d.between(1, 3), 1)]) if not lifetime else 1200
+        if many and not lifetime:
+            n = d.weighted([(d.between(5, 8), 20), (d.between(1, 3), 1)])
         layers.append(dict(type=t, static=d.chance(1, 2), incompressible=d.chance(1, 10), n=n, **mat))
     spec = {'radius': d.pick([1.0e6, 6.0e6, 2.5e7]), 'layers': layers,
             'frequency': d.pick([1.0e-6, 7.27e-5, 4.1e-5, 1.0e-3]),
